@@ -102,16 +102,21 @@ def chk_unit(got, want):
 
 
 def chk_find(got, want):
-    """want = (nf, ys or None): got = [nf] + ys for e=None, else ys."""
-    raw, nf, ys = want
-    if not isinstance(got, list):
+    """want = (raw, nf, ys or None, container): got = [nf] + ys + [container code] for e=None, else ys + [container code];
+    container code of the returned f-value: 0 single number, 1 tuple, 2 list (mirrors what f / cs_f returns; None: not demanded)."""
+    raw, nf, ys, cont = want
+    if not isinstance(got, list) or not got:
         return False
     got = [plain(g) for g in got]
+    got, code = got[:-1], got[-1]
     if raw:
         if not got or got[0] != nf:
             return 'nf'
-        return True if nf == 1 else got[1:] == ys
-    return got == ys
+        if nf == 0 and got[1:] != ys:
+            return False
+    elif got != ys:
+        return False
+    return True if cont is None or code == cont else 'container-type'
 
 
 # ------------------------------------------------------------------------------------------
@@ -139,12 +144,13 @@ def find_ref(e_name, form, x, a):
     e = E_FORMS[e_name]
     pf = F_FORMS[form][1]
     ix = next((i for i, b in enumerate(x) if b == a), None)
+    cont = None if form == 'f+cs_f' else 1 if form.endswith('tuple') else 2 if form.endswith('list') else 0
     if e is None:
-        return (True, int(ix is None), pf(ix) if ix is not None else None)
+        return (True, int(ix is None), pf(ix) if ix is not None else None, cont)
     E = n if e == 'default' else n - 1 if e == 'len(x)-1' else e
     if E < 0 and form in POW_FORMS:
         return None               # f(-1) = 2^-1 is no integer
-    return (False, 0, pf(ix if ix is not None else E))
+    return (False, 0, pf(ix if ix is not None else E), cont)
 
 
 def find_combos():
@@ -198,6 +204,12 @@ def build(mpc, tier='quick'):
     def secure(r, S):
         """Results that the code under test returns as public Python ints (empty-list cases) are wrapped for opening."""
         return [v if isinstance(v, mpc.SecureObject) else S(v) for v in flatten(r)]
+
+    def tagged(r, raw, S):
+        """find's result, flattened, followed by the container code of the f-value."""
+        y = r[1] if raw and isinstance(r, tuple) and len(r) == 2 else r
+        code = 1 if isinstance(y, tuple) else 2 if isinstance(y, list) else 0
+        return secure(r, S) + [S(code)]
 
     def fxp(v, integral=None):
         a = F(v / 8) if v % 8 else F(v // 8)
@@ -301,7 +313,7 @@ def build(mpc, tier='quick'):
         kw = dict(F_FORMS[form][0])
         if e_name != 'default':
             kw['e'] = E_FORMS[e_name]
-        op1(f'find:e={e_name}:{form}', lambda p, kw=kw: secure(mpc.find(p[1], p[0], **kw), T12),
+        op1(f'find:e={e_name}:{form}', lambda p, kw=kw, raw=(e_name == 'None'): tagged(mpc.find(p[1], p[0], **kw), raw, T12),
             lambda v, e_name=e_name, form=form: find_ref(e_name, form, v[0][1:], int(v[0][0][-1])), chk_find, mkfind(T12),
             find_dom(1, 3), mp_find if (e_name in ('default', 'None') or form == 'plain') else [])
     # the empty list (handled by an explicit branch of find): default form and raw form at once
@@ -315,7 +327,7 @@ def build(mpc, tier='quick'):
             kw = {} if e_name == 'default' else dict(e=E_FORMS[e_name])
             if sname != 'fxp' and e_name == '-1':
                 continue
-            op1(f'find:{sname}:e={e_name}', lambda p, kw=kw, S=S: secure(mpc.find(p[1], p[0], **kw), S),
+            op1(f'find:{sname}:e={e_name}', lambda p, kw=kw, S=S, raw=(e_name == 'None'): tagged(mpc.find(p[1], p[0], **kw), raw, S),
                 lambda v, e_name=e_name: find_ref(e_name, 'plain', v[0][1:], int(v[0][0][-1])), chk_find, mkfind(S),
                 [d for d in find_dom(1, 4) if d[0] in aks], [d for d in mp_find[:8] if d[0] in aks])
     # -- find, bits=False: input = ((p|s, a), x0, x1, ...) ----------------------------------------------
@@ -335,7 +347,7 @@ def build(mpc, tier='quick'):
             kw = dict(F_FORMS[form][0], bits=False)
             if e_name != 'default':
                 kw['e'] = E_FORMS[e_name]
-            op1(f'find:bits=False:e={e_name}:{form}', lambda p, kw=kw: secure(mpc.find(p[1], p[0], **kw), T12),
+            op1(f'find:bits=False:e={e_name}:{form}', lambda p, kw=kw, raw=(e_name == 'None'): tagged(mpc.find(p[1], p[0], **kw), raw, T12),
                 lambda v, e_name=e_name, form=form: find_ref(e_name, form, v[0][1:], v[0][0][1]), chk_find, mkfind_nb(T12),
                 nb_dom, mp_nb if form == 'plain' else [], maxpts=2)
     op1('seclist.find', lambda p: mpc.seclist(p[1], T12).find(p[0]), lambda v: find_ref('-1', 'plain', v[0][1:], v[0][0][1])[2][0],
